@@ -196,13 +196,14 @@ func (s *Scenario) runScript(eng host.Engine, i int, opt *host.Options) (Obs, *h
 	return observe(h, o), h, o
 }
 
-var prepareRe = regexp.MustCompile(`prepare\(([^)]*)\)`)
+var prepareRe = regexp.MustCompile(`prepare\(([^\n]*)`)
 
 // signersFor derives the signer accounts of a transaction from the number of parameters of its
 // prepare block: account 0x1 first (it holds the deployed contract), then 0x2, 0x3, …
 func signersFor(src string) []common.Address {
 	n := 1
 	if m := prepareRe.FindStringSubmatch(src); m != nil {
+		// m[1] is the whole line of the prepare header (parameter types contain parentheses)
 		n = strings.Count(m[1], "&Account")
 		if n < 1 {
 			n = 1
